@@ -188,7 +188,7 @@ func oracleDesc(op *Sexp, res string) []string {
 }
 
 func runC14(r *Runner, g *Gen, tier string) string {
-	n := scale(tier, 4000, 200000)
+	n := scale(tier, 4000, 500000)
 	for i := 0; i < n; i++ {
 		cfg := g.pickCfg()
 		withNull := g.r.P(30)
